@@ -44,6 +44,33 @@ def rsvd_cases(draw, tier):
             "seed": draw(gen.seeds())}
 
 
+LONG_DIMS = (63, 64, 65, 127, 129, 200, 255, 256, 257, 300, 511, 513, 600)
+
+
+@st.composite
+def long_cases(draw, tier):
+    """One LONG dimension (crossing the usual blocking sizes 64/128/256/512) against a short one: the property's
+    "every shape" includes the thin image / signal matrices of the demos.  Entries come from a PRNG seeded with a drawn
+    integer (thousands of entries drawn one by one would be the whole budget); the case stores the matrix itself."""
+    Lg = draw(st.sampled_from(LONG_DIMS)) + draw(st.sampled_from([0, 0, 1, 7]))
+    sh = draw(st.integers(1, 4))
+    r = draw(st.integers(1, sh))
+    rng = np.random.RandomState(draw(gen.seeds()))
+    B = rng.standard_normal((Lg, r, 4))
+    C = rng.standard_normal((r, sh, 4))
+    # graded columns so the spectrum is simple and well separated (outside the known-finding classes)
+    A = ref.qmm(B * (2.0 ** -np.arange(r))[None, :, None], C)
+    if draw(st.booleans()):
+        A = np.ascontiguousarray(ref.conjT(A))
+    R = r if draw(st.integers(0, 2)) else draw(st.integers(r, sh))     # rank == R is outside the known-finding class
+    A = A * 10.0 ** draw(st.sampled_from([0, 0, -6, 5]))
+    return {"A": np.ascontiguousarray(A), "kind": f"long:rank{r}", "R": R,
+            "algo": draw(st.sampled_from(["rand_qsvd", "pass_eff_qsvd"])),
+            "oversample": draw(st.sampled_from([0, 1, 2, 5, 10])),
+            "n_iter": draw(st.integers(0, 3)), "n_passes": draw(st.integers(2, 5)),
+            "seed": draw(gen.seeds())}
+
+
 def check_rsvd(case):
     A, R, algo, P = case["A"], case["R"], case["algo"], case["oversample"]
     m, n, _ = A.shape
@@ -132,7 +159,9 @@ PROPERTY = Property(
     id="C12",
     title="Randomized Q-SVDs: orthonormal factors, interlacing values, exact on low rank",
     rule="R + oversample > min(m,n), or rank(A) < min(m,n), or min(m,n) <= 3",
-    clauses=[Clause("rsvd", check_rsvd, strategy=rsvd_cases, budget={"quick": 1200, "thorough": 16000})],
+    clauses=[Clause("rsvd", check_rsvd, strategy=rsvd_cases, budget={"quick": 1200, "thorough": 16000}),
+             Clause("rsvd_long_dimension", check_rsvd, strategy=long_cases, budget={"quick": 160, "thorough": 1600},
+                    shrink=False)],
     assumptions=[
         "the library's global numpy RNG is seeded by the harness with a generated integer right before each call",
         "only deterministic consequences are checked on every draw (shapes, orthonormality, interlacing, error sandwich, "
